@@ -295,6 +295,18 @@ func c14serial(rep *vh.Report, seed uint64, idx int) {
 		}
 		cause := fmt.Errorf("injected serial failure #%d", f)
 		injected[f] = cause
+		if r.Chance(1, 3) {
+			// the device has stopped taking output: the channel's writer sits inside Write when the read side fails
+			// (only closing the port releases it)
+			cur.BlockWrites()
+			for k := 0; k < 3; k++ {
+				_ = node.WriteMessageAll(&MessageVfUid{Uid: uint64(k)})
+			}
+			waitFor(func() bool { return cur.Blocked() > 0 }, func() int64 { return int64(cur.WriteCalls()) }, 300*time.Millisecond)
+			if cur.Blocked() > 0 {
+				rep.Count("serial_failures_with_writer_inside_write", 1)
+			}
+		}
 		// some failed open attempts before the next success
 		if r.Chance(1, 2) {
 			sf.mu.Lock()
